@@ -85,7 +85,6 @@ from tensordict.utils import (
     unravel_key_list,
 )
 from torch import nn, Tensor
-from torch._dynamo import graph_break
 from torch._functorch.vmap import _maybe_remove_batch_dim
 from torch.nn.parameter import UninitializedTensorMixin
 from torch.nn.utils._named_member_accessor import swap_tensor
@@ -285,9 +284,7 @@ class TensorDict(TensorDictBase):
                     f"sub-type or a dictionary, found type(source)={type(source)}."
                 )
             self._batch_size = self._parse_batch_size(source, batch_size)
-            # TODO: this breaks when stacking tensorclasses with dynamo
-            if not is_compiling():
-                self.names = names
+            self.names = names
 
             for key, value in source.items():
                 self.set(key, value, non_blocking=sub_non_blocking)
@@ -318,15 +315,17 @@ class TensorDict(TensorDictBase):
         if is_compiling() and cls is TensorDict:
             # If the cls is not TensorDict, we must escape this to keep the same class.
             # That's unfortunate because as of now it graph breaks but that's the best we can do.
-            return TensorDict(
+            result = TensorDict(
                 source,
                 batch_size=batch_size,
                 device=device,
-                names=names,
                 non_blocking=non_blocking,
                 lock=lock,
                 **kwargs,
             )
+            # as below: the names are stored as they are, and the nested tensordicts keep theirs
+            result._td_dim_names = names
+            return result
         if kwargs and not source:
             source = kwargs
         self = cls.__new__(cls)
@@ -2358,13 +2357,6 @@ class TensorDict(TensorDictBase):
 
     @names.setter
     def names(self, value):
-        if is_compiling():
-            if value is not None:
-                graph_break()
-            else:
-                # We have already made sure that the tensordict was not named
-                return
-
         # we don't run checks on types for efficiency purposes
         if value is None:
             self._rename_subtds(value)
